@@ -202,16 +202,30 @@ Proof.
   rewrite hex4_ok by exact Hx. rewrite Hs. reflexivity.
 Qed.
 
-(* the two units between the halves are skipped unread by the code *)
-Lemma u_branch_pair : forall w k1 k2 hi lo p q rest, hi < 65536 -> lo < 65536 ->
+(* a high surrogate followed by a second escape (backslash, u or U, four digits) *)
+Lemma u_branch_pair : forall w k1 k2 hi lo (cap : bool) rest, validw w -> hi < 65536 -> lo < 65536 ->
   is_high_surrogate hi = true ->
-  u_branch w (hex4l k1 hi ++ p :: q :: hex4l k2 lo ++ rest) = UBOk (to_utf w (recombine hi lo)) rest 10.
+  u_branch w (hex4l k1 hi ++ 92 :: (if cap then 85 else 117) :: hex4l k2 lo ++ rest)
+  = UBOk (to_utf w (recombine hi lo)) rest 10.
 Proof.
-  intros w k1 k2 hi lo p q rest Hh Hl Hs. unfold u_branch.
+  intros w k1 k2 hi lo cap rest Hw Hh Hl Hs. unfold u_branch. rewrite (jnot_ascii w Hw). cbv zeta.
   rewrite hex4_ok by exact Hh. rewrite Hs.
-  change (skipn 4 (hex4l k1 hi ++ p :: q :: hex4l k2 lo ++ rest)) with (p :: q :: hex4l k2 lo ++ rest).
-  change (skipn 2 (p :: q :: hex4l k2 lo ++ rest)) with (hex4l k2 lo ++ rest).
-  rewrite hex4_ok by exact Hl. reflexivity.
+  change (skipn 4 (hex4l k1 hi ++ 92 :: (if cap then 85 else 117) :: hex4l k2 lo ++ rest))
+    with (92 :: (if cap then 85 else 117) :: hex4l k2 lo ++ rest).
+  change (skipn 2 (92 :: (if cap then 85 else 117) :: hex4l k2 lo ++ rest)) with (hex4l k2 lo ++ rest).
+  rewrite hex4_ok by exact Hl.
+  destruct cap; reflexivity.
+Qed.
+
+(* D92: a high surrogate that is not followed by backslash + u / U fails *)
+Lemma u_branch_lone : forall w k1 hi p q rest, validw w -> hi < 65536 -> is_high_surrogate hi = true ->
+  (p =? 92) && ((q =? 117) || (q =? 85)) = false ->
+  u_branch w (hex4l k1 hi ++ p :: q :: rest) = UBFail.
+Proof.
+  intros w k1 hi p q rest Hw Hh Hs Hpq. unfold u_branch. rewrite (jnot_ascii w Hw). cbv zeta.
+  rewrite hex4_ok by exact Hh. rewrite Hs.
+  change (skipn 4 (hex4l k1 hi ++ p :: q :: rest)) with (p :: q :: rest).
+  cbn [negb low_escape_follows jbs ju jcu ascii_jnot]. rewrite Hpq. now rewrite andb_false_r.
 Qed.
 
 (* the escape text of a scalar value is consumed in one iteration and appends the
@@ -231,7 +245,7 @@ Proof.
     rewrite !u_escape_shape. cbn [app]. rewrite <- app_assoc.
     rewrite unesc_u by exact Hw.
     cbn [app].
-    rewrite u_branch_pair; [| lia | lia | rewrite sur_ok by lia; lia].
+    rewrite u_branch_pair; [| exact Hw | lia | lia | rewrite sur_ok by lia; lia].
     rewrite (recombine_ok (v / 1024) (v mod 1024) Hhi Hlo).
     replace (65536 + v / 1024 * 1024 + v mod 1024) with cp by lia.
     f_equal. cbn [length]. rewrite app_length. cbn [length]. unfold hex4l. cbn [length]. lia.
@@ -394,7 +408,7 @@ Proof.
   destruct (Nat.ltb 3 (length r2)); [|discriminate].
   destruct (negb _).
   - assert (E : r' = skipn 4 r2) by congruence. rewrite E, skipn_length. lia.
-  - destruct (Nat.ltb 5 _); [|discriminate].
+  - destruct (Nat.ltb 5 _ && _); [|discriminate].
     assert (E : r' = skipn 4 (skipn 2 (skipn 4 r2))) by congruence. rewrite E, !skipn_length. lia.
 Qed.
 
@@ -440,6 +454,18 @@ Definition old_high_test (code : N) : bool := N.shiftr code 8 =? 0xD8.
 Example d11_old_test_misses : old_high_test 0xD950 = false /\ is_high_surrogate 0xD950 = true.
 Proof. split; reflexivity. Qed.
 Example d11_witness : c20_model_raw 1 [92; 117; 100; 57; 53; 48; 92; 117; 100; 99; 48; 48] = PStr [0xF1; 0xA4; 0x80; 0x80].
+Proof. vm_compute. reflexivity. Qed.
+(* D92: a high surrogate joins only with a following \u / \U escape; ordinary text behind a
+   lone high surrogate (here \ud800ABCDEF) makes the parse fail instead of being swallowed;
+   the VALUE of the second escape stays unchecked (\ud800\u0041 is taken as a pair) *)
+Example d92_lone_high_then_text : c20_model_raw 1 [92; 117; 100; 56; 48; 48; 65; 66; 67; 68; 69; 70] = PFail.
+Proof. vm_compute. reflexivity. Qed.
+Example d92_lone_high_then_other_escape : c20_model_raw 1 [92; 117; 100; 56; 48; 48; 92; 110; 65; 66; 67; 68] = PFail.
+Proof. vm_compute. reflexivity. Qed.
+Example d92_lone_high_at_end : c20_model_raw 2 [92; 117; 100; 56; 48; 48] = PFail.
+Proof. vm_compute. reflexivity. Qed.
+Example d92_second_escape_value_unchecked :
+  c20_model_raw 1 [92; 117; 100; 56; 48; 48; 92; 117; 48; 48; 52; 49] = PStr [0xF0; 0x90; 0x81; 0x81].
 Proof. vm_compute. reflexivity. Qed.
 (* a malformed escape, a backslash at the end, a missing closing quote: failure *)
 Example ex_short : parse_string_value 1 [92; 117; 48; 48; 97] = PFail.
